@@ -329,6 +329,30 @@ Proof.
   intros H. pose proof (rule_check_ok inp) as F. rewrite Forall_forall in F. specialize (F _ H). cbn in F. tauto.
 Qed.
 
+(* ... and when the fit is a partition of the peers (fit_wf, judged by the monitor on every case) the removed orphan is held by no rule *)
+Lemma nodup_app_disjoint (a b : list Z) x : NoDup (a ++ b) -> In x a -> In x b -> False.
+Proof.
+  induction a as [|y a IH]; cbn; intros N Ha Hb; [contradiction|].
+  inversion N as [|? ? Hn N']; subst. destruct Ha as [->|Ha].
+  - apply Hn. apply in_or_app. right. exact Hb.
+  - exact (IH N' Ha Hb).
+Qed.
+
+Theorem rule_removal_not_held inp st s :
+  fit_wf (i_region inp) (i_fit inp) = true ->
+  In (Some (st, ARemove s)) (rule_check inp) ->
+  exists o, In o (fit_orphans (i_fit inp)) /\ p_store o = s /\
+            forall rf, In rf (fit_rules (i_fit inp)) -> ~ In (p_id o) (map p_id (rf_peers rf)).
+Proof.
+  intros W H. destruct (rule_removes_only_orphans _ _ _ H) as [(o & rest & E & Hs) _].
+  exists o. split; [rewrite E; left; reflexivity|]. split; [exact Hs|].
+  intros rf Hrf Hin. unfold fit_wf in W. apply andb_prop in W as [W _]. apply andb_prop in W as [W _].
+  apply nodupZb_NoDup in W. unfold fit_ids in W.
+  apply (nodup_app_disjoint _ _ (p_id o) W).
+  - apply in_flat_map. exists rf. split; assumption.
+  - rewrite E. left. reflexivity.
+Qed.
+
 (* through CheckRegion: one of the two justifications *)
 Theorem controller_removes_only_justified inp st s :
   In (Some (st, ARemove s)) (controller_check inp) ->
